@@ -704,3 +704,8 @@ M('repair-d16-consolidate-null-chunk', 'C01', 'keep', RQ,
 M('repair-d3-no-umask', 'C19', 'keep', 'htp/htp_multipart.c',
   '                        mode_t previous_mask = umask(S_IXUSR | S_IRWXG | S_IRWXO);\n                        part->file->fd = mkstemp(part->file->tmpname);\n                        umask(previous_mask);',
   '                        part->file->fd = mkstemp(part->file->tmpname);')
+
+M('c10f-reclaim-depends-on-response-cursor', 'C10', 'break', CP,
+  '    for (size_t i = 0; i < nb; i++) {\n        // 0 and not i because at next iteration, we have removed the first', '    for (size_t i = 0; (i < nb) && (connp->out_next_tx_index > 0); i++) {\n        // 0 and not i because at next iteration, we have removed the first', 'C10.f')
+M('c10f-reclaim-while-loop-keep', 'C10', 'keep', CP,
+  '    for (size_t i = 0; i < nb; i++) {\n        // 0 and not i because at next iteration, we have removed the first', '    size_t i = 0;\n    for (; i < nb; i++) {\n        // 0 and not i because at next iteration, we have removed the first')
